@@ -22,7 +22,8 @@ class C02(UtfCheck):
             'UTF-32 side: boundary values pairwise and in every position, blocks around D800/110000/400000/FFFFFFFF, '
             'thorough: all values 0..0x120000 in digest mode. wchar_t aliases. '
             'Default-mode clause: mode-omitting overloads of every route in builds with -DST_DEFAULT_VALIDATION= '
-            'assume_valid / substitute_invalid and the unset default. Seeded random damaged text. '
+            'assume_valid / substitute_invalid and the unset default. Block-wise shapes: a malformed unit / a wide character at every offset 0..39 of 40 units of ASCII, forms ending '
+            'at and just past multiples of 8, whole blocks. Seeded random damaged text. '
             'expected = Tokens.spec_conv; under assume_valid on malformed input only "some buffer, no exception" is required. '
             'non-trivial = non-empty input; distinct = distinct case line')
     modelled_not_verified = (
@@ -32,7 +33,10 @@ class C02(UtfCheck):
         'input by throwing (content not compared); for UTF-8 values above 0x10FFFF sent to UTF-16 the reference is "treated '
         'like an invalid unit" (throw / U+FFFD)',
     )
-    partial = ''
+    partial = ('repair_revalid for UTF-16 / UTF-32 RESULTS is proved for UTF-8 input whose decoded values are scalars (revalid16_refuted / '
+               'revalid32_refuted show why); it is not stated for UTF-32 -> UTF-16 and UTF-16 -> UTF-32 results. deciders_agree for the '
+               'UTF-16 and UTF-32 sides is the generic check_validity_throws_iff + can_show_holds, not spelled out per function. '
+               'utf32_to_wchar / wchar_to_utf32 (plain copies) are outside conv_fn: wchar_copy_ignores_mode_refuted (known finding).')
 
     def variants(self):
         # the two extra builds only run the mode-omitting overloads: -O0 -g0 keeps their compile time small
@@ -109,6 +113,23 @@ class C02(UtfCheck):
                         for sub in subs_for(fn):
                             yield case(fn, rts[i % len(rts)], '_', sub, u)
                     yield case('str_lit_utf8', 'lit' if i % 2 else 'u8lit', '_', '_', u)
+        # ---- block-wise shapes (word-at-a-time rewrites): a malformed unit, and a well-formed wide character, at every
+        #      offset of 40 units of ASCII; forms ending exactly at / one unit past a block boundary; whole blocks
+        for kind in ('8', '16', '32'):
+            shaped = block_malformed(kind) + [encode(kind, sc) for sc in block_scalars()]
+            for i, u in enumerate(shaped):
+                allf = FN_BY_SRC[kind]
+                fns = allf if not quick else [allf[(i + j * 2) % len(allf)] for j in range(2)]
+                for fn in fns:
+                    for mode in (MODES if not quick else (MODES[i % 3], 'cv')):
+                        for sub in subs_for(fn)[: 1 if quick else 2]:
+                            yield case(fn, 'ptr' if i % 2 else 'buf', mode, sub, u)
+                if kind == '8' and i % 4 == 0:
+                    for fn in STR_TO_FNS[1:]:
+                        yield case(fn, 'to', '_', '1' if fn == 'str_to_latin_1' else '_', u)
+        for i, b in enumerate(block_latin1()):
+            for fn in FN_BY_SRC['l1']:
+                yield case(fn, 'ptr', '_', '_', b)
         # literal operators (hard-wired assume_valid) on damaged wide text
         for kind, fn in (('16', 'str_from_utf16'), ('32', 'str_from_utf32'), ('32', 'str_from_wchar')):
             for u in malformed_inputs(kind, rng, tier)[:200]:
